@@ -1403,3 +1403,51 @@ def run_thread_seq(res, ast, rule="THREAD-SEQ"):
             probs.append(f"cannot be analysed (fail closed): {u_}")
         res.evaluations += 1
         res.check(not probs, rule, f"{BCMOD}|build_threaded_code|unlimited|safe={str(safe).lower()}", w, f"safe = {str(safe).lower()}: " + "; ".join(probs[:2]))
+
+
+def run_io_nested(res, ast, rule="IO-DISCIPLINE"):
+    """the IR interpreter's Loop / If arms on the scenario "the nested run was stopped by an I/O failure" (it returned None): the arm must hand the
+    None on at once - no further nested run, no charge - with and without a budget.  (The same scenario is part of LIM-BACKEDGE under C07.)"""
+    try:
+        f = ast.fn(IRINT, "execute_block")
+    except Missing as m:
+        res.missing(rule, m)
+        return
+    arms = {}
+    for m in walk_t(f["node"]["body"], "Match"):
+        for a in m["arms"]:
+            if a["pat"]["t"] == "PStruct":
+                arms[a["pat"]["path"]["name"]] = a
+    gens = [g["name"] for g in f["node"]["sig"]["generics"]["params"] if g["t"] == "ConstParam"]
+    limn = gens[0] if gens else "LIMITED"
+    ps_ = [p_["pat"]["name"] for p_ in f["node"]["sig"]["inputs"] if p_["t"] == "Arg" and p_["pat"]["t"] == "PIdent"]
+    for vn in ("Instr::Loop", "Instr::If"):
+        for lim in (True, False):
+            key = f"{IRINT}|execute_block|{vn}|nested-none|{'limited' if lim else 'unlimited'}"
+            if vn not in arms:
+                res.bad(rule, key, where(IRINT, f["node"], "execute_block"), f"no arm for {vn}")
+                continue
+            a = arms[vn]
+            binds = ps_ + [n_["name"] for n_ in walk_t(a["pat"], "PIdent")]
+            it = ArmInterp(ast, IRINT, False, limn, lim, [True, True, True], [NONE, NONE], f["name"], zero_after=[False, False])
+            env = Env()
+            for n_ in binds:
+                env.bind(n_, ("opaque", n_))
+            res.evaluations += 1
+            try:
+                try:
+                    it.eval(a["body"], env)
+                    got = "goes on with the next instruction"
+                except ReturnEx as r_:
+                    v_ = r_.value
+                    got = "returns None" if (isinstance(v_, Opt) and not v_.some) else f"returns {v_!r}"
+                except ContinueEx:
+                    got = "goes on with the next instruction"
+                except Exhausted:
+                    got = "budget underflow"
+                ok = got == "returns None" and it.nested_calls == 1 and it.decs == 0
+                msg = f"{got} after {it.nested_calls} nested run(s) and {it.decs} charge(s)"
+            except (Unanalysable, Reached, BreakEx, KeyError, TypeError) as u_:
+                ok, msg = False, f"cannot be analysed (fail closed): {u_}"
+            res.check(ok, rule, key, where(IRINT, a, "execute_block"),
+                      f"{vn} ({'limited' if lim else 'unlimited'}): a nested run that was stopped by an I/O failure must stop this run at once (return None); it {msg}")
